@@ -485,6 +485,32 @@ func (s *splitter) splitLogging(path string, m map[string]any) []frag {
 func (s *splitter) splitRefMap(path string, m map[string]any, defaults map[string]any) []frag {
 	out := s.absent()
 	maps := make([]map[string]any, s.n)
+	if defaults != nil && len(m) >= 2 && s.n >= 3 && s.coin("dep-three-step", 1, 2) {
+		// three mentions: one dependency first, then all of them with the default settings (the short list
+		// spelling), then the settings that differ from the defaults
+		names := sortedKeys(m)
+		a := rapid.IntRange(0, s.n-3).Draw(s.t, "depa")
+		b := rapid.IntRange(a+1, s.n-2).Draw(s.t, "depb")
+		c := rapid.IntRange(b+1, s.n-1).Draw(s.t, "depc")
+		maps[a] = map[string]any{names[0]: cloneTree(defaults)}
+		maps[b] = map[string]any{}
+		maps[c] = map[string]any{}
+		for _, n := range names {
+			maps[b][n] = cloneTree(defaults)
+			inner, _ := m[n].(map[string]any)
+			isDefault := inner != nil && len(inner) == 2 && inner["condition"] == "service_started" && inner["required"] == true
+			if !isDefault {
+				maps[c][n] = cloneTree(inner)
+			}
+		}
+		for i := range maps {
+			if len(maps[i]) > 0 {
+				out[i] = frag{true, maps[i]}
+			}
+		}
+		s.used["depends-on-three-step"]++
+		return out
+	}
 	for _, name := range sortedKeys(m) {
 		inner, _ := m[name].(map[string]any)
 		if inner == nil {
